@@ -343,38 +343,97 @@ func (cs *c14Case) runFetch() {
 	ckName := rockredis.GetCheckpointDir(term, idx)
 	leftover := filepath.Join(cs.b.DB().GetBackupDir(), ckName)
 	os.MkdirAll(leftover, 0755)
-	fis, _ := ioutil.ReadDir(kC.Dir)
-	var names []string
-	for _, fi := range fis {
-		names = append(names, fi.Name())
-	}
-	sort.Strings(names)
-	variant := cs.r.Intn(4)
+	// Two families of left-overs.
+	// "synthetic": a seed-chosen subset of C's files (the shapes of seed C14r2-2).
+	// "reachable": exactly what a kill of everything during the REAL local fetch
+	//   leaves. Production order (prepareSnapshotForStore): handleReuseOldCheckpoint,
+	//   then common.RunFileSync = `cp -rp <src>/<t-i> <backupdir>` which writes
+	//   straight into the final directory name, file by file in cp's own order
+	//   (learned from the real `cp -rpv` on the same source directory), and only
+	//   after cp returned postFileSync writes source_node_info. So: a prefix of
+	//   the copy order, the last file possibly cut short, source_node_info only
+	//   together with the complete copy.
 	var copied []string
-	for _, nme := range names {
-		keep := true
-		switch variant {
-		case 0: // everything but CURRENT (cp copies in name order; killed before the last files)
-			keep = nme != "CURRENT"
-		case 1: // random subset, killed before CURRENT was copied
-			keep = cs.r.Intn(2) == 0 && nme != "CURRENT"
-		case 2: // only the write-ahead log and MANIFEST files
-			keep = strings.HasSuffix(nme, ".log") || strings.HasPrefix(nme, "MANIFEST")
-		case 3: // complete
+	var missing []string
+	withInfo := false
+	reachable := cs.r.Intn(2) == 0
+	fromRoot, fromCk := rootC, kC
+	if reachable && cs.r.Intn(2) == 0 {
+		fromRoot, fromCk = rootA, kA // the same source is asked again after the restart
+	}
+	var order []string
+	if reachable {
+		order = cpOrder(fromCk.Dir, cs.root("cporder"))
+		if order == nil {
+			reachable = false
+			fromRoot, fromCk = rootC, kC
 		}
-		if keep {
-			if err := copyFile1(filepath.Join(kC.Dir, nme), filepath.Join(leftover, nme)); err != nil {
+	}
+	if reachable {
+
+		// every prefix of the copy order, with and without a cut last file,
+		// enumerated over the cases
+		p := cs.ID % (len(order) + 1)
+		cut := p > 0 && (cs.ID/(len(order)+1))%2 == 1
+		for i, nme := range order {
+			if i >= p {
+				missing = append(missing, fileClass(nme)+"-missing")
+				continue
+			}
+			src, dst := filepath.Join(fromCk.Dir, nme), filepath.Join(leftover, nme)
+			if err := copyFile1(src, dst); err != nil {
 				cs.incon = "partial copy: " + err.Error()
 				return
 			}
+			if i == p-1 && cut {
+				if fi, err := os.Stat(dst); err == nil && fi.Size() > 1 {
+					os.Truncate(dst, int64(cs.r.Intn(int(fi.Size()))))
+					missing = append(missing, fileClass(nme)+"-truncated")
+					copied = append(copied, nme+"(cut short)")
+					continue
+				}
+			}
 			copied = append(copied, nme)
 		}
+		if p == len(order) && !cut && cs.r.Intn(2) == 0 {
+			withInfo = true // cp finished and postFileSync ran before the kill
+			node.VerifPostFileSync(leftover, filepath.Join(fromRoot, DefaultNamespace))
+		}
+		cs.nReachable++
+		cs.logf("REACHABLE left-over of a killed `cp -rp` from %s (copy order %v): %v, source_node_info=%v; C was restarted %d time(s)", filepath.Base(fromRoot), order, copied, withInfo, restarts)
+	} else {
+		fis, _ := ioutil.ReadDir(kC.Dir)
+		var names []string
+		for _, fi := range fis {
+			names = append(names, fi.Name())
+		}
+		sort.Strings(names)
+		variant := cs.r.Intn(4)
+		for _, nme := range names {
+			keep := true
+			switch variant {
+			case 0: // everything but CURRENT
+				keep = nme != "CURRENT"
+			case 1: // random subset without CURRENT
+				keep = cs.r.Intn(2) == 0 && nme != "CURRENT"
+			case 2: // only the write-ahead log and MANIFEST files
+				keep = strings.HasSuffix(nme, ".log") || strings.HasPrefix(nme, "MANIFEST")
+			case 3: // complete
+			}
+			if keep {
+				if err := copyFile1(filepath.Join(kC.Dir, nme), filepath.Join(leftover, nme)); err != nil {
+					cs.incon = "partial copy: " + err.Error()
+					return
+				}
+				copied = append(copied, nme)
+			}
+		}
+		withInfo = cs.r.Intn(4) == 0
+		if withInfo {
+			node.VerifPostFileSync(leftover, "127.0.0.1"+filepath.Join(rootC, DefaultNamespace))
+		}
+		cs.logf("synthetic left-over of a fetch from C: %v in %s (source_node_info=%v); C was restarted %d time(s)", copied, ckName, withInfo, restarts)
 	}
-	withInfo := cs.r.Intn(4) == 0
-	if withInfo {
-		node.VerifPostFileSync(leftover, "127.0.0.1"+filepath.Join(rootC, DefaultNamespace))
-	}
-	cs.logf("interrupted fetch from C left %v in %s (source_node_info=%v); C was restarted %d time(s)", copied, ckName, withInfo, restarts)
 	// B is restarted
 	if cs.Engine == "pebble" {
 		if err := cs.b.Reopen(); err != nil {
@@ -397,9 +456,15 @@ func (cs *c14Case) runFetch() {
 	stop := make(chan struct{})
 	err = node.VerifPrepareSnapshotForStore(cs.b.Store(), mc, ci, DefaultNamespace, 2, stop, snap, 0)
 	cs.logf("prepareSnapshotForStore(B, source A) -> %v", err)
+	_, ierr := os.Stat(filepath.Join(leftover, "source_node_info"))
+	fetched := ierr == nil && !withInfo // postFileSync runs after every fetch
 	if err != nil {
 		if _, lerr := exec.LookPath("cp"); lerr != nil {
 			cs.incon = "no cp command"
+			return
+		}
+		if reachable {
+			cs.nLoud++ // a loud error is an acceptable outcome for a left-over of a crash
 			return
 		}
 		cs.violation("fetch-fails/"+cs.Engine, fmt.Sprintf("prepareSnapshotForStore for %s from an available source failed after an interrupted fetch: %v", ckName, err), nil)
@@ -407,6 +472,24 @@ func (cs *c14Case) runFetch() {
 	}
 	err = cs.b.DB().Restore(term, idx)
 	cs.logf("restore %s on B -> %v", ckName, err)
+	if err != nil && reachable {
+		cs.nLoud++
+		return
+	}
+	if reachable && !fetched && len(missing) > 0 {
+		// the partial left-over was accepted as a usable local backup
+		// (IsLocalBackupOK), nothing was fetched: the restored state must still be
+		// the checkpointed one
+		cs.nAccepted++
+		raw := cs.b.RawDumpNoFlush()
+		if d := RawDiff(kA.RefRaw, raw); d != "" {
+			sort.Strings(missing)
+			sig := "partial-leftover-accepted/" + strings.Join(uniq(missing), "+")
+			cs.violation(sig, fmt.Sprintf("a left-over of a killed local fetch of snapshot %s (%v of the copy order %v) is accepted by IsLocalBackupOK: prepareSnapshotForStore fetches nothing, Restore returns nil and the state differs from the checkpointed one: %s", ckName, copied, order, d),
+				map[string]interface{}{"checkpoint": ckName, "copy_order": order, "leftover_files": copied, "missing": missing, "engine_keys_checkpointed": len(kA.RefRaw), "engine_keys_restored": len(raw)})
+			return
+		}
+	}
 	if err != nil {
 		cs.violation("restore-fails/"+cs.Engine, fmt.Sprintf("restore of the fetched checkpoint %s failed: %v", ckName, err), nil)
 		return
@@ -416,6 +499,74 @@ func (cs *c14Case) runFetch() {
 	cs.nFetch++
 	cs.checkRestored(cs.b, kA, "restore of the checkpoint fetched through prepareSnapshotForStore after an interrupted fetch from another source")
 	cs.checkDirs("after the fetch")
+}
+
+func uniq(a []string) []string {
+	var out []string
+	for i, x := range a {
+		if i == 0 || a[i-1] != x {
+			out = append(out, x)
+		}
+	}
+	return out
+}
+
+// fileClass names the kind of an engine file of a checkpoint directory.
+func fileClass(name string) string {
+	switch {
+	case strings.HasSuffix(name, ".log"):
+		return "wal"
+	case strings.HasSuffix(name, ".sst"):
+		return "sst"
+	case strings.HasPrefix(name, "MANIFEST"):
+		return "manifest"
+	case strings.HasPrefix(name, "OPTIONS"):
+		return "options"
+	case name == "CURRENT":
+		return "current"
+	}
+	return "other"
+}
+
+// cpOrder learns the order in which the real `cp -rp` copies the files of a
+// checkpoint directory on this file system (coreutils sorts the directory
+// entries by inode where that helps, else it uses readdir order) by running
+// `cp -rpv` into a scratch directory. nil if that is not possible.
+func cpOrder(src, scratch string) []string {
+	defer os.RemoveAll(scratch)
+	if err := os.MkdirAll(scratch, 0755); err != nil {
+		return nil
+	}
+	out, err := exec.Command("cp", "-rpv", src, scratch).Output()
+	if err != nil {
+		return nil
+	}
+	var order []string
+	for _, ln := range strings.Split(string(out), "\n") {
+		i := strings.LastIndex(ln, " -> ")
+		if i < 0 {
+			continue
+		}
+		dst := strings.Trim(strings.TrimSpace(ln[i+4:]), "'\"`‘’")
+		nme := filepath.Base(dst)
+		if nme == filepath.Base(src) {
+			continue
+		}
+		if _, err := os.Stat(filepath.Join(src, nme)); err == nil {
+			order = append(order, nme)
+		}
+	}
+	fis, _ := ioutil.ReadDir(src)
+	n := 0
+	for _, fi := range fis {
+		if !fi.IsDir() {
+			n++
+		}
+	}
+	if len(order) != n || n == 0 {
+		return nil
+	}
+	return order
 }
 
 func copyFile1(src, dst string) error {
